@@ -202,11 +202,12 @@ class CallbackList(BaseCallback):
 
     def _init_callback(self) -> None:
         for callback in self.callbacks:
-            callback.init_callback(self.model)
-
             # Fix for https://github.com/DLR-RM/stable-baselines3/issues/1791
             # pass through the parent callback to all children
+            # (before initializing them, so that nested lists pass it on too)
             callback.parent = self.parent
+
+            callback.init_callback(self.model)
 
     def _on_training_start(self) -> None:
         for callback in self.callbacks:
